@@ -441,7 +441,7 @@ class World(BaseWorld):
             return self.gen_dist(rng)
         if c.get("p_huge") and rng.random() < c["p_huge"]:
             big = rng.random() < c.get("p_huge_main", 0.0)
-            return {"op": "huge", "fn": rng.choice(c["fns"]), "N": rng.choice([1300000, 1100000]) if big else rng.choice([60000, 45000, 33000]),
+            return {"op": "huge", "fn": rng.choice(c["fns"]), "N": rng.choice([1300000, 1100000]) if big else rng.choice([70000, 60000, 45000, 33000]),
                     "stack_kb": 0 if big else 256, "in_order": rng.random() < 0.7, "init": rng.random() < 0.5, "seed": rng.randrange(1000),
                     "schedule": rng.choice([[0], [0, 0.5], [1.0]])}
         return self.gen_anneal(rng)
